@@ -573,6 +573,53 @@ def permissive_resolvers(rng, ir, inj):
     return None
 
 
+class _ValueResolver(object):
+    """A resolver object with value semantics (what a dataclass gives): instances compare equal whatever their
+    call signature is, and a class that defines __eq__ without __hash__ is unhashable."""
+
+    def __init__(self, fn):
+        self.fn = fn
+        self.__signature__ = __import__("inspect").signature(fn)
+
+    def __call__(self, *a, **kw):
+        return self.fn(*a, **kw)
+
+    def __eq__(self, other):
+        return isinstance(other, _ValueResolver)
+
+
+class _HashableValueResolver(_ValueResolver):
+    def __hash__(self):
+        return 7
+
+
+@benign
+def callable_object_resolvers(rng, ir, inj):
+    f = _resolver_field(ir, inj, [SInput("n", nn(named("Int")))])
+    inj.resolvers[(ir.query, f)] = rng.choice([_ValueResolver, _HashableValueResolver])(lambda root, ctx, info, n: 1)
+    g = _resolver_field(ir, inj, [])
+    inj.resolvers[(ir.query, g)] = _HashableValueResolver(lambda root, ctx, info: 1)
+    return None
+
+
+@op
+def resolver_objects_equal_but_only_one_fits(rng, ir, inj):
+    """Two resolver objects that compare (and hash) equal, with different call signatures: each is judged by its
+    own signature, in whichever order the fields come."""
+    good = _resolver_field(ir, inj, [])
+    bad = _resolver_field(ir, inj, [SInput("needed", nn(named("Int")))])
+    pair = [(good, _HashableValueResolver(lambda root, ctx, info: 1)), (bad, _HashableValueResolver(lambda root, ctx, info: 1))]
+    for f, r in pair:
+        inj.resolvers[(ir.query, f)] = r
+    if rng.random() < 0.5:
+        # the misfit comes first in the field list
+        q = ir.types[ir.query]
+        fg, fb = q.field(good), q.field(bad)
+        i, j = q.fields.index(fg), q.fields.index(fb)
+        q.fields[i], q.fields[j] = fb, fg
+    return bad
+
+
 def build(ir, inj, order_rng=None):
     names = list(ir.types)
     if order_rng is not None:
@@ -676,6 +723,19 @@ def run(ctx):
                     break
                 for name, needle in needles:
                     ctx.count("detected:" + name)
+                # the option that switches the resolver-signature rule off leaves every other rule on
+                try:
+                    validate_schema(schema, enable_resolver_validation=False)
+                    light = []
+                except SchemaValidationError as e:
+                    light = [str(x) for x in e.errors]
+                ctx.count("validated_without_resolver_rule")
+                lost = [(name, needle) for name, needle in needles
+                        if "resolver" not in name and not any(needle in m for m in light)]
+                if lost:
+                    ctx.violation("violation-not-reported-without-resolver-rule:%s" % lost[0][0], witness,
+                                  "injected %r, messages %r" % (lost, light[:6]))
+                    break
                 verdicts.append(sorted(set(n for n, needle in needles if any(needle in m for m in out[1]))))
             if len(set(map(tuple, verdicts))) > 1:
                 ctx.violation("verdict-depends-on-type-order", witness, repr(verdicts))
